@@ -14,7 +14,7 @@ func init() {
 		Title: "CORS headers are granted only to allowed origins, echoing the origin",
 		Decided: "C08.a every Access-Control-* grant reachable from the CORS filter is dominated - in its function or at every call site, transitively - by the true edge of the origin predicate applied to this request's Origin header; " +
 			"C08.b the origin predicate decides on whole strings only: the origin flows only into len, ToLower/EqualFold, equality with a whole configured entry and the configured predicate, every 'true' answer is justified by 'nothing configured', the wildcard entry, whole-string equality or the predicate, and an empty origin is refused first; " +
-			"C08.c the Allow-Origin value is the request's Origin header itself and at most one Allow-Origin is added on any path; credentials only under CookiesAllowed; C08.d without an Origin or for a refused origin the filter only passes the chain on, exactly once, with its own arguments.",
+			"C08.c the Allow-Origin value is the request's Origin header itself and at most one Allow-Origin is added on any path; credentials only under CookiesAllowed; C08.e the chain a request runs through is its own (fresh slice, local chain); C08.d without an Origin or for a refused origin the filter only passes the chain on, exactly once, with its own arguments.",
 		NotDecided: "what a user-supplied AllowedDomainFunc accepts; headers added by other filters or handlers; the OPTIONSFilter (it has no origin configuration and is outside this property).",
 		Rules: []Rule{
 			{ID: "C08.a", Template: "T-GUARD", Required: true, Run: ruleC08a,
@@ -25,6 +25,8 @@ func init() {
 				Doc: "Echo verbatim, once: Allow-Origin carries Header.Get(Origin) of this request (not a lowered copy, not '*'), is added at most once per request, and Allow-Credentials is dominated by the CookiesAllowed setting."},
 			{ID: "C08.d", Template: "T-ONCE", Required: true, Run: ruleC08d,
 				Doc: "Pass-through: on the no-Origin and refused-origin branches nothing but logging and exactly one chain.ProcessFilter(req, resp) runs; no grant is reachable."},
+			{ID: "C08.e", Template: "T-FRESH", Required: true, Run: ruleC06c,
+				Doc: "'Allowed by the filter's configuration' presupposes that the CORS filter which runs for a request is the one registered for its container, service or route: every chain is a function-local object over a fresh slice (same obligations as C06.c). A chain slice appended onto a shared list lets a concurrent request's filters - another route's laxer CORS filter - run in place of this route's."},
 		},
 	})
 	register(&Property{
@@ -43,6 +45,10 @@ func init() {
 				Doc: "Requested header names are decided by case-insensitive whole-string equality with a configured entry, or the '*' entry."},
 			{ID: "C09.d", Template: "T-EFFECT", Required: true, Run: ruleC09d,
 				Doc: "Computed methods do not stick: stores into the filter configuration on the request path go to a function-local copy (today: Filter has a value receiver). Turning Filter into a pointer-receiver method compiles, passes the single preflight test and makes the first preflight's methods the answer for every later URL."},
+			{ID: "C09.g", Template: "T-SIBLING", Required: true, Run: ruleC17d,
+				Doc: "'The methods routable at that URL': the computation behind an unconfigured AllowedMethods accepts a route exactly as the router does (route expression matched against the service remainder, final group empty or '/') and for the service the router would select (same obligations as C17.d)."},
+			{ID: "C09.h", Template: "T-EFFECT", Required: true, Run: ruleC17e,
+				Doc: "The computed methods are a function of this request and the live route tables: no memo on shared state (same obligations as C17.e). Route/RemoveRoute do not go through the container, so a cache keyed by URL grants methods that are no longer routable."},
 			{ID: "C09.e", Template: "T-PROV", Required: true, Run: ruleC09e,
 				Doc: "The allowed methods are computed from this request (the filter's own req) on the configured container, or the default container when none is configured."},
 		},
